@@ -50,6 +50,16 @@ Reason(e, s) ==
          IF e.res # "ok" \/ e.nil_packets # 0 \/ s.pzBroken THEN ""       \* nothing can be observed through a broken instrument (for the rest of the case)
          ELSE IF e.roc # s.pzRoc + Wraps(<<s.pzLast>> \o e.seqs) THEN "rollover_count_via_packetizer"
          ELSE ""
+    [] e.ev = "long" ->     \* several wraps on one sequencer (closed form: SeqInd.tla): no step breaks the succession, the j-th zero is handed out
+                            \* by call j * 2^16 - s0 and raises the count to j, the final value and count follow from the number of calls
+         LET s0 == (s.start + MOD - 1) % MOD  wraps == (s0 + e.calls) \div MOD IN
+         IF e.res # "ok" THEN "panic"
+         ELSE IF e.first # s.start THEN "first_value_not_start"
+         ELSE IF e.breaks # 0 THEN "not_successor"
+         ELSE IF e.last # (s.start + e.calls - 1) % MOD THEN "not_successor"
+         ELSE IF Len(e.zeros) # wraps \/ e.roc # wraps THEN "rollover_count"
+         ELSE IF \E j \in 1..Len(e.zeros) : e.zeros[j][1] # j * MOD - s0 \/ e.zeros[j][2] # j THEN "rollover_count"
+         ELSE ""
     [] e.ev = "unavailable" -> ""      \* the verification constructor for a preset roll-over count does not fit the implementation
     [] e.ev = "end" ->
          IF e.panics # 0 THEN "panic"
